@@ -6,6 +6,7 @@
  * arguments only.)  sha256_write/_finalize: stream contracts. */
 #define C02_HASHLOG2
 #define C02_NONCE_FRAME
+#define C02_FRAME_UNITS
 #include "assumed_C02.h"
 #include "src/secp256k1.c"
 #include "post.h"
